@@ -13,6 +13,7 @@ package simvk
 
 import (
 	"fmt"
+	"runtime"
 	"sync"
 	"sync/atomic"
 )
@@ -99,6 +100,9 @@ type TypeCfg struct {
 
 // Config describes the simulated device.
 type Config struct {
+	// Yield: every driver entry point yields the processor first (models driver latency; widens the windows of
+	// check-then-act defects in the concurrent stress run)
+	Yield         bool
 	API           int // 10, 11 or 12
 	Heaps         []HeapCfg
 	Types         []TypeCfg
@@ -616,6 +620,9 @@ func (d *Device) FreeMemory(id int) {
 
 // MapMemory simulates vkMapMemory. It returns the backing slice starting at offset.
 func (d *Device) MapMemory(id, offset, size int) ([]byte, int) {
+	if d.Cfg.Yield {
+		runtime.Gosched()
+	}
 	c := Call{Kind: CallMap, Mem: id, Off: offset, Size: size}
 	m := d.MemByID(id)
 	if m == nil || !m.Alive() {
@@ -661,6 +668,9 @@ func (d *Device) MapMemory(id, offset, size int) ([]byte, int) {
 
 // UnmapMemory simulates vkUnmapMemory.
 func (d *Device) UnmapMemory(id int) {
+	if d.Cfg.Yield {
+		runtime.Gosched()
+	}
 	c := Call{Kind: CallUnmap, Mem: id}
 	m := d.MemByID(id)
 	if m == nil || !m.Alive() {
